@@ -760,7 +760,7 @@ def register(e):
     X['nondet_u64'] = _nondet(64, 'u64'); X['nondet_bool'] = _nondet(32, 'bool'); X['nondet_f64'] = _nondet(64, 'f64')
     X['vp_range'] = x_vp_range; X['vp_assume'] = x_vp_assume; X['vp_assert'] = x_vp_assert; X['vp_reach'] = x_vp_reach
     X['vp_note'] = x_vp_note; X['vp_param'] = x_vp_param; X['vp_concretize'] = x_vp_concretize
-    X['vp_is_symbolic'] = x_vp_is_symbolic; X['vp_heap_live'] = x_vp_heap_live; X['vp_symbolic_run'] = x_vp_symbolic_run
+    X['vp_is_symbolic'] = x_vp_is_symbolic; X['vp_is_symbolic_l'] = x_vp_is_symbolic; X['vp_heap_live'] = x_vp_heap_live; X['vp_symbolic_run'] = x_vp_symbolic_run
     for n in ('__cxa_throw', '__cxa_rethrow', '__cxa_allocate_exception', '__cxa_begin_catch', '_ZSt17__throw_bad_allocv',
               '_ZSt20__throw_length_errorPKc', '__cxa_bad_cast', '__cxa_bad_typeid'): X[n] = x_throw
     for n in ('_ZSt9terminatev', 'abort', '__cxa_pure_virtual', '__assert_fail'): X[n] = x_terminate
